@@ -285,6 +285,12 @@ func runC06(w *World) {
 		}
 		os.WriteFile(filepath.Join(F.dir, "appendonly.aof"), raw, 0600)
 	}
+	// one run in three makes the instant between a log stream's end-of-file and its wait for more
+	// a decision point: a flush that lands exactly there wakes nobody
+	if w.knob("streameof", 3) == 1 {
+		L.parkStreamEOF = true
+		w.stat("c06.runs_with_stream_eof_point", 1)
+	}
 	viaCmd := w.knob("followcmd", 2) == 1
 	if !viaCmd {
 		F.config["follow_host"] = "10.0.0.1"
